@@ -2278,4 +2278,565 @@ theorem segArgs_fuel : ∀ (fuel fuel' : Nat) (d : Disp),
       rw [segArgs_fuel fuel fuel' d.nextArg.2 (by rw [h1, h2]; omega) (by rw [h1, h2]; omega)]
     · simp [ha]
 
+/-! ### Caddyfile: the dispenser only moves forward, the loops and the nesting have fuel enough -/
+
+
+/-- the cursor stays inside "one past the last token" (or at 1 for an empty token list) -/
+def Disp.bound (d : Disp) : Nat := max d.toks.length 1
+
+/-- `d'` comes from `d` by dispenser operations: same tokens, the cursor did not move back and
+    stays within the bound -/
+structure Fwd (d d' : Disp) : Prop where
+  toks : d'.toks = d.toks
+  mono : d.cur ≤ d'.cur
+  wf : d.cur ≤ d.bound → d'.cur ≤ d.bound
+
+theorem Fwd.refl (d : Disp) : Fwd d d := ⟨rfl, Nat.le_refl _, id⟩
+
+theorem Fwd.trans {a b c : Disp} (h1 : Fwd a b) (h2 : Fwd b c) : Fwd a c := by
+  have hb : b.bound = a.bound := by simp [Disp.bound, h1.toks]
+  exact ⟨h2.toks.trans h1.toks, Nat.le_trans h1.mono h2.mono, fun h => hb ▸ h2.wf (hb ▸ h1.wf h)⟩
+
+theorem next_spec (d : Disp) :
+    (d.next.1 = true → d.next.2 = { d with cur := d.cur + 1 } ∧ d.cur + 1 ≤ d.toks.length) ∧
+    (d.next.1 = false → d.next.2 = d) := by
+  unfold Disp.next
+  by_cases h : d.cur < d.toks.length <;> simp [h]
+  omega
+
+theorem nosl_spec (d : Disp) :
+    (d.nextOnSameLine.1 = true → d.nextOnSameLine.2 = { d with cur := d.cur + 1 } ∧ d.cur + 1 ≤ d.bound) ∧
+    (d.nextOnSameLine.1 = false → d.nextOnSameLine.2 = d) := by
+  unfold Disp.nextOnSameLine Disp.bound
+  cases hc : d.cur with
+  | zero =>
+    simp
+    omega
+  | succ c =>
+    cases h0 : d.toks[c]? with
+    | none => simp [h0]
+    | some t1 =>
+      cases h1 : d.toks[c + 1]? with
+      | none => simp [h0, h1]
+      | some t2 =>
+        have hlt : c + 1 < d.toks.length := (List.getElem?_eq_some_iff.1 h1).1
+        by_cases hl : t1.line < t2.line
+        · simp [h0, h1, hl]
+        · simp [h0, h1, hl]
+          omega
+
+theorem nextArg_spec (d : Disp) :
+    (d.nextArg.1 = true → d.nextArg.2 = { d with cur := d.cur + 1 } ∧ d.cur + 1 ≤ d.bound) ∧
+    (d.nextArg.1 = false → d.nextArg.2 = d) := by
+  obtain ⟨h1, h2⟩ := nosl_spec d
+  unfold Disp.nextArg
+  by_cases hn : d.nextOnSameLine.1 = true
+  · obtain ⟨g1, g2⟩ := h1 hn
+    simp only [hn, if_true]
+    by_cases hv : d.nextOnSameLine.2.val = lbrace
+    · simp only [hv, if_true]
+      constructor
+      · intro h; cases h
+      · intro _
+        rw [g1]
+        cases d; simp [Disp.prev]
+    · simp only [hv, if_false]
+      exact ⟨fun _ => ⟨g1, g2⟩, fun h => (by cases h)⟩
+  · have hn' : d.nextOnSameLine.1 = false := by simpa using hn
+    simp only [hn', Bool.false_eq_true, if_false]
+    exact ⟨fun h => (by cases h), fun _ => h2 hn'⟩
+
+theorem nextArg_fwd (d : Disp) : Fwd d d.nextArg.2 ∧ d.nextArg.2.nest = d.nest := by
+  obtain ⟨h1, h2⟩ := nextArg_spec d
+  by_cases h : d.nextArg.1 = true
+  · obtain ⟨g1, g2⟩ := h1 h
+    rw [g1]
+    exact ⟨⟨rfl, by simp, fun _ => g2⟩, rfl⟩
+  · rw [h2 (by simpa using h)]
+    exact ⟨Fwd.refl d, rfl⟩
+
+theorem fwd_of_cur {d d' : Disp} (ht : d'.toks = d.toks) (h1 : d.cur ≤ d'.cur) (h2 : d'.cur ≤ d.bound) : Fwd d d' :=
+  ⟨ht, h1, fun _ => h2⟩
+
+theorem next_fwd (d : Disp) : Fwd d d.next.2 ∧ d.next.2.nest = d.nest := by
+  obtain ⟨h1, h2⟩ := next_spec d
+  by_cases h : d.next.1 = true
+  · obtain ⟨g1, g2⟩ := h1 h
+    rw [g1]
+    exact ⟨fwd_of_cur rfl (by simp) (by simp [Disp.bound]; omega), rfl⟩
+  · rw [h2 (by simpa using h)]; exact ⟨Fwd.refl d, rfl⟩
+
+theorem nosl_fwd (d : Disp) : Fwd d d.nextOnSameLine.2 ∧ d.nextOnSameLine.2.nest = d.nest := by
+  obtain ⟨h1, h2⟩ := nosl_spec d
+  by_cases h : d.nextOnSameLine.1 = true
+  · obtain ⟨g1, g2⟩ := h1 h
+    rw [g1]
+    exact ⟨fwd_of_cur rfl (by simp) g2, rfl⟩
+  · rw [h2 (by simpa using h)]; exact ⟨Fwd.refl d, rfl⟩
+
+theorem fwd_nest {d d' : Disp} (h : Fwd d d') (n : Nat) : Fwd d { d' with nest := n } :=
+  ⟨h.toks, h.mono, h.wf⟩
+
+theorem prev_val (d : Disp) (n : Nat) : ({ d with nest := n } : Disp).val = d.val := rfl
+
+/-- what `NextBlock(init)` does to the cursor and the nesting -/
+theorem nextBlock_spec (d : Disp) (init : Nat) :
+    Fwd d (d.nextBlock init).2 ∧
+    ((d.nextBlock init).1 = true → d.cur < (d.nextBlock init).2.cur) ∧
+    (init ≤ d.nest → init ≤ (d.nextBlock init).2.nest) ∧
+    (d.nest ≤ init → (d.nextBlock init).1 = true → (d.nextBlock init).2.val ≠ lbrace →
+      d.cur + 2 ≤ (d.nextBlock init).2.cur) := by
+  unfold Disp.nextBlock
+  by_cases hA : init < d.nest
+  · simp only [hA, if_true]
+    obtain ⟨n1, n2⟩ := next_spec d
+    obtain ⟨nf, nn⟩ := next_fwd d
+    by_cases hn : d.next.1 = true
+    · obtain ⟨e1, e2⟩ := n1 hn
+      have hcur : d.next.2.cur = d.cur + 1 := by rw [e1]
+      obtain ⟨sf, sn⟩ := nosl_fwd d.next.2
+      have hf2 : Fwd d d.next.2.nextOnSameLine.2 := nf.trans sf
+      simp only [hn, if_true]
+      split
+      · refine ⟨fwd_nest hf2 _, fun _ => ?_, fun _ => ?_, fun h => by omega⟩
+        · have := sf.mono; simp at this ⊢; omega
+        · simp; omega
+      · split
+        · refine ⟨fwd_nest hf2 _, fun _ => ?_, fun _ => ?_, fun h => by omega⟩
+          · have := sf.mono; simp at this ⊢; omega
+          · simp; omega
+        · split
+          · refine ⟨hf2, fun _ => ?_, fun _ => ?_, fun h => by omega⟩
+            · have := sf.mono; dsimp only; omega
+            · dsimp only; rw [sn, nn]; omega
+          · refine ⟨nf, fun _ => (by dsimp only; omega), fun _ => (by dsimp only; rw [nn]; omega), fun h => by omega⟩
+    · have hn' : d.next.1 = false := by simpa using hn
+      simp only [hn', Bool.false_eq_true, if_false]
+      rw [n2 hn']
+      exact ⟨Fwd.refl d, fun h => (by cases h), fun h => h, fun h => by omega⟩
+  · simp only [hA, if_false]
+    obtain ⟨s1, s2⟩ := nosl_spec d
+    obtain ⟨sf, sn⟩ := nosl_fwd d
+    by_cases hs : d.nextOnSameLine.1 = false
+    · simp only [hs, if_true]
+      rw [s2 hs]
+      exact ⟨Fwd.refl d, fun h => (by cases h), fun h => h, fun _ h => (by cases h)⟩
+    · have hs' : d.nextOnSameLine.1 = true := by simpa using hs
+      obtain ⟨g1, g2⟩ := s1 hs'
+      simp only [hs', Bool.true_eq_false, if_false]
+      by_cases hv : d.nextOnSameLine.2.val ≠ lbrace
+      · rw [if_pos hv]
+        have : d.nextOnSameLine.2.prev = d := by rw [g1]; cases d; simp [Disp.prev]
+        rw [this]
+        exact ⟨Fwd.refl d, fun h => (by cases h), fun h => h, fun _ h => (by cases h)⟩
+      · have hv' : d.nextOnSameLine.2.val = lbrace := by simpa using hv
+        rw [if_neg hv]
+        obtain ⟨m1, m2⟩ := next_spec d.nextOnSameLine.2
+        obtain ⟨mf, mn⟩ := next_fwd d.nextOnSameLine.2
+        have hf2 : Fwd d d.nextOnSameLine.2.next.2 := sf.trans mf
+        have hc1 : d.nextOnSameLine.2.cur = d.cur + 1 := by rw [g1]
+        by_cases hr : d.nextOnSameLine.2.next.2.val = rbrace
+        · simp only [hr, if_true]
+          exact ⟨hf2, fun h => (by cases h), fun h => (by rw [mn, sn]; exact h), fun _ h => (by cases h)⟩
+        · simp only [hr, if_false]
+          refine ⟨fwd_nest hf2 _, fun _ => ?_, fun h => (by show init ≤ d.nextOnSameLine.2.next.2.nest + 1; rw [mn, sn]; omega), fun _ _ hval => ?_⟩
+          · have := mf.mono; show d.cur < d.nextOnSameLine.2.next.2.cur; omega
+          · -- the token after the brace was loaded, otherwise the value would still be the brace
+            by_cases hm : d.nextOnSameLine.2.next.1 = true
+            · obtain ⟨k1, _⟩ := m1 hm
+              show d.cur + 2 ≤ d.nextOnSameLine.2.next.2.cur
+              rw [k1]; show d.cur + 2 ≤ d.nextOnSameLine.2.cur + 1; omega
+            · have := m2 (by simpa using hm)
+              simp only [prev_val] at hval
+              rw [this] at hval
+              exact absurd hv' hval
+
+theorem remainingArgs_fwd : ∀ (fuel : Nat) (d : Disp),
+    Fwd d (remainingArgs fuel d).2 ∧ (remainingArgs fuel d).2.nest = d.nest
+  | 0, d => ⟨Fwd.refl d, rfl⟩
+  | fuel + 1, d => by
+    obtain ⟨af, an⟩ := nextArg_fwd d
+    unfold remainingArgs
+    split
+    · obtain ⟨rf, rn⟩ := remainingArgs_fwd fuel d.nextArg.2
+      exact ⟨af.trans rf, rn.trans an⟩
+    · exact ⟨af, an⟩
+
+theorem segArgs_fwd : ∀ (fuel : Nat) (d : Disp),
+    Fwd d (segArgs fuel d).2 ∧ (segArgs fuel d).2.nest = d.nest ∧
+    (segArgs fuel d).1.length + d.cur ≤ (segArgs fuel d).2.cur
+  | 0, d => ⟨Fwd.refl d, rfl, by simp [segArgs]⟩
+  | fuel + 1, d => by
+    obtain ⟨af, an⟩ := nextArg_fwd d
+    obtain ⟨a1, _⟩ := nextArg_spec d
+    unfold segArgs
+    split
+    · rename_i ha
+      obtain ⟨rf, rn, rl⟩ := segArgs_fwd fuel d.nextArg.2
+      obtain ⟨g1, _⟩ := a1 ha
+      have hc : d.nextArg.2.cur = d.cur + 1 := by rw [g1]
+      exact ⟨af.trans rf, rn.trans an, by simp only [List.length_cons]; omega⟩
+    · exact ⟨af, an, by simp; exact af.mono⟩
+
+theorem segBlock_fwd (init : Nat) : ∀ (fuel : Nat) (opened : Bool) (d : Disp), init ≤ d.nest →
+    Fwd d (segBlock init fuel opened d).2.2 ∧ init ≤ (segBlock init fuel opened d).2.2.nest ∧
+    (segBlock init fuel opened d).1.length + d.cur ≤ (segBlock init fuel opened d).2.2.cur + (if opened then 0 else 1)
+  | 0, opened, d, h => ⟨Fwd.refl d, h, by simp [segBlock]⟩
+  | fuel + 1, opened, d, h => by
+    obtain ⟨bf, bt, bn, _⟩ := nextBlock_spec d init
+    unfold segBlock
+    split
+    · rename_i hb
+      have hlt := bt hb
+      obtain ⟨rf, rn, rl⟩ := segBlock_fwd init fuel true (d.nextBlock init).2 (bn h)
+      simp only [if_true, Nat.add_zero] at rl
+      split
+      · exact ⟨bf.trans rf, rn, by simp only [List.length_cons]; omega⟩
+      · exact ⟨bf.trans rf, rn, by simp only [List.length_cons]; omega⟩
+    · exact ⟨bf, bn h, by simp; have := bf.mono; omega⟩
+
+/-- `NextSegment()`: the cursor only moves forward, the nesting does not drop, and the segment has
+    at most three tokens more than the cursor passed (the first token, and — on an unterminated
+    block — a repeated token at either end) -/
+theorem nextSegment_spec (d : Disp) :
+    Fwd d (nextSegment d).2 ∧ d.nest ≤ (nextSegment d).2.nest ∧
+    (nextSegment d).1.length + d.cur ≤ (nextSegment d).2.cur + 3 := by
+  obtain ⟨af, an, al⟩ := segArgs_fwd (d.toks.length + 2) d
+  obtain ⟨bf, bn, bl⟩ := segBlock_fwd (segArgs (d.toks.length + 2) d).2.nest (d.toks.length + 2) false
+    (segArgs (d.toks.length + 2) d).2 (Nat.le_refl _)
+  unfold nextSegment
+  refine ⟨af.trans bf, Nat.le_trans (Nat.le_of_eq an.symm) bn, ?_⟩
+  simp only [Bool.false_eq_true, if_false] at bl
+  simp only [List.length_cons, List.length_append]
+  split <;> simp <;> omega
+
+theorem fwd_bound {d d' : Disp} (h : Fwd d d') : d'.bound = d.bound := by simp [Disp.bound, h.toks]
+
+/-- the block loop of query / header / cookie does not run out of fuel: with enough iterations for
+    the tokens that are left, and a fallback loader that does not run out on the (shorter)
+    segments it is given -/
+theorem blockLoop_fuel (dur : Bytes → Option Int) (cookie : Bool) (lf : List Tok → CfRes) (c0 L : Nat)
+    (hlf : ∀ seg : List Tok, seg.length + c0 ≤ L → lf seg ≠ .fuel) :
+    ∀ (n : Nat) (d : Disp) (st : BlkState), d.toks.length = L → d.cur ≤ d.bound → d.bound + 1 - d.cur ≤ n →
+    ((d.nest = 0 ∧ c0 ≤ d.cur) ∨ c0 + 2 ≤ d.cur) → blockLoop dur cookie lf n d st ≠ .fuel
+  | 0, d, st, _, hwf, hn, _ => by omega
+  | n + 1, d, st, hL, hwf, hn, hinv => by
+    obtain ⟨bf, bt, _, b2⟩ := nextBlock_spec d 0
+    unfold blockLoop
+    by_cases hb : (d.nextBlock 0).1 = true
+    · have hlt := bt hb
+      have hwf1 : (d.nextBlock 0).2.cur ≤ d.bound := bf.wf hwf
+      have hb1 : (d.nextBlock 0).2.bound = d.bound := fwd_bound bf
+      -- once a token that is not a brace is loaded, the cursor is two past the start
+      have hcur : (d.nextBlock 0).2.val ≠ lbrace → c0 + 2 ≤ (d.nextBlock 0).2.cur := by
+        intro hv
+        rcases hinv with ⟨h0, hc⟩ | hc
+        · have := b2 (by omega) hb hv; omega
+        · omega
+      simp only [hb, if_true]
+      split
+      · rename_i hval
+        have hv : (d.nextBlock 0).2.val ≠ lbrace := by rw [hval]; decide
+        have hc2 := hcur hv
+        obtain ⟨a1, _⟩ := nextArg_spec (d.nextBlock 0).2
+        obtain ⟨af, _⟩ := nextArg_fwd (d.nextBlock 0).2
+        split
+        · rename_i ha
+          obtain ⟨g1, g2⟩ := a1 ha
+          have hcur2 : (d.nextBlock 0).2.nextArg.2.cur = (d.nextBlock 0).2.cur + 1 := by rw [g1]
+          split
+          · simp
+          · obtain ⟨sf, _, sl⟩ := nextSegment_spec (d.nextBlock 0).2.nextArg.2
+            have hf3 : Fwd d (nextSegment (d.nextBlock 0).2.nextArg.2).2 := (bf.trans af).trans sf
+            have hwf3 := hf3.wf hwf
+            have hbL : d.bound = L := by
+              unfold Disp.bound; rw [hL]
+              have : (d.nextBlock 0).2.cur + 1 ≤ (d.nextBlock 0).2.bound := g2
+              rw [hb1] at this; unfold Disp.bound at this; rw [hL] at this; omega
+            have hseg : (nextSegment (d.nextBlock 0).2.nextArg.2).1.length + c0 ≤ L := by omega
+            cases hr : lf (nextSegment (d.nextBlock 0).2.nextArg.2).1 with
+            | ok p =>
+              simp only
+              apply blockLoop_fuel dur cookie lf c0 L hlf n
+              · rw [hf3.toks, hL]
+              · rw [fwd_bound hf3]; exact hwf3
+              · rw [fwd_bound hf3]; have := sf.mono; omega
+              · right; have := sf.mono; omega
+            | err => simp
+            | fuel => exact absurd hr (hlf _ hseg)
+        · simp
+      · split
+        · rename_i hval
+          have hv : (d.nextBlock 0).2.val ≠ lbrace := by rw [hval.2]; decide
+          have hc2 := hcur hv
+          obtain ⟨af, _⟩ := nextArg_fwd (d.nextBlock 0).2
+          obtain ⟨af2, _⟩ := nextArg_fwd (d.nextBlock 0).2.nextArg.2
+          have hf4 : Fwd d (d.nextBlock 0).2.nextArg.2.nextArg.2 := (bf.trans af).trans af2
+          split
+          · split
+            · simp
+            · split
+              · simp
+              · split
+                · simp
+                · split
+                  · simp
+                  · apply blockLoop_fuel dur cookie lf c0 L hlf n
+                    · rw [hf4.toks, hL]
+                    · rw [fwd_bound hf4]; exact hf4.wf hwf
+                    · rw [fwd_bound hf4]; have := af.mono; have := af2.mono; omega
+                    · right; have := af.mono; have := af2.mono; omega
+          · simp
+        · simp
+    · simp [hb]
+
+theorem lr_ok_ne_fuel {σ : Type} {v : σ} : (Lr.ok v : Lr σ) ≠ .fuel := by intro h; cases h
+
+/-- a fresh dispenser, `Next()`, `NextArg()`: the cursor stands on the second token -/
+theorem fresh_next_nextArg (seg : List Tok) (h : ((Disp.mk seg 0 0).next.2).nextArg.1 = true) :
+    ((Disp.mk seg 0 0).next.2).nextArg.2.toks = seg ∧ ((Disp.mk seg 0 0).next.2).nextArg.2.nest = 0 ∧
+    1 ≤ ((Disp.mk seg 0 0).next.2).nextArg.2.cur ∧
+    ((Disp.mk seg 0 0).next.2).nextArg.2.cur ≤ ((Disp.mk seg 0 0).next.2).nextArg.2.bound := by
+  obtain ⟨nf, nn⟩ := next_fwd (Disp.mk seg 0 0)
+  obtain ⟨af, an⟩ := nextArg_fwd (Disp.mk seg 0 0).next.2
+  obtain ⟨a1, _⟩ := nextArg_spec (Disp.mk seg 0 0).next.2
+  obtain ⟨g1, g2⟩ := a1 h
+  have hf := nf.trans af
+  refine ⟨hf.toks, by rw [an, nn], ?_, ?_⟩
+  · rw [g1]; simp
+  · rw [fwd_bound hf]; exact hf.wf (by simp [Disp.bound])
+
+/-- the nested `UnmarshalModule` calls do not run out of fuel: a segment shorter than the fuel -/
+theorem parseSel_fuel (dur : Bytes → Option Int) : ∀ (fuel : Nat) (seg : List Tok), seg.length < fuel →
+    parseSel dur fuel seg ≠ .fuel
+  | 0, _, h => by omega
+  | fuel + 1, seg, hlen => by
+    -- the loader of fallbacks: segments at least one token shorter
+    have hlf : ∀ (c0 : Nat), 1 ≤ c0 → ∀ s' : List Tok, s'.length + c0 ≤ seg.length → parseSel dur fuel s' ≠ .fuel :=
+      fun c0 hc s' hs => parseSel_fuel dur fuel s' (by omega)
+    unfold parseSel
+    cases seg with
+    | nil => simp
+    | cons t0 rest =>
+      simp only
+      split
+      · split <;> simp
+      · split
+        · split
+          · simp
+          · split <;> simp
+        · split
+          · split
+            · split <;> simp
+            · simp
+          · split
+            · split
+              · rename_i ha
+                obtain ⟨ht, hn, hc1, hwf⟩ := fresh_next_nextArg (t0 :: rest) ha
+                have hb := blockLoop_fuel dur false (parseSel dur fuel)
+                  ((Disp.mk (t0 :: rest) 0 0).next.2).nextArg.2.cur (t0 :: rest).length
+                  (hlf _ hc1) ((t0 :: rest).length + 2) ((Disp.mk (t0 :: rest) 0 0).next.2).nextArg.2 ⟨none, 0⟩
+                  (by rw [ht]) hwf (by unfold Disp.bound at *; rw [ht] at *; omega) (Or.inl ⟨hn, Nat.le_refl _⟩)
+                split
+                · split <;> simp
+                · simp
+                · rename_i hf; exact absurd hf hb
+              · simp
+            · split
+              · -- cookie: `RemainingArgs()` on the fresh dispenser reads at least the policy name
+                rename_i hck
+                obtain ⟨rf, rn⟩ := remainingArgs_fwd ((t0 :: rest).length + 2) (Disp.mk (t0 :: rest) 0 0)
+                have hc1 : 1 ≤ (remainingArgs ((t0 :: rest).length + 2) (Disp.mk (t0 :: rest) 0 0)).2.cur := by
+                  have hstep : (Disp.mk (t0 :: rest) 0 0).nextArg = (true, ⟨t0 :: rest, 1, 0⟩) := by
+                    have hv : t0.text ≠ lbrace := by rw [hck]; decide
+                    simp [Disp.nextArg, Disp.nextOnSameLine, Disp.val, hv]
+                  have hlen2 : (t0 :: rest).length + 2 = ((t0 :: rest).length + 1) + 1 := rfl
+                  rw [hlen2]
+                  unfold remainingArgs
+                  rw [hstep]
+                  simp only [if_true]
+                  exact (remainingArgs_fwd ((t0 :: rest).length + 1) ⟨t0 :: rest, 1, 0⟩).1.mono
+                have hwf : (remainingArgs ((t0 :: rest).length + 2) (Disp.mk (t0 :: rest) 0 0)).2.cur
+                    ≤ (remainingArgs ((t0 :: rest).length + 2) (Disp.mk (t0 :: rest) 0 0)).2.bound := by
+                  rw [fwd_bound rf]; exact rf.wf (by simp [Disp.bound])
+                have hb := blockLoop_fuel dur true (parseSel dur fuel)
+                  (remainingArgs ((t0 :: rest).length + 2) (Disp.mk (t0 :: rest) 0 0)).2.cur (t0 :: rest).length
+                  (hlf _ hc1) ((t0 :: rest).length + 2) (remainingArgs ((t0 :: rest).length + 2) (Disp.mk (t0 :: rest) 0 0)).2
+                  ⟨none, 0⟩ (by rw [rf.toks]) hwf
+                  (by unfold Disp.bound at *; rw [rf.toks] at *; simp at *; omega) (Or.inl ⟨by rw [rn], Nat.le_refl _⟩)
+                split
+                · split
+                  · simp
+                  · simp
+                  · rename_i hf; exact absurd hf hb
+                · split
+                  · simp
+                  · simp
+                  · rename_i hf; exact absurd hf hb
+                · split
+                  · simp
+                  · simp
+                  · rename_i hf; exact absurd hf hb
+                · simp
+              · simp
+
+theorem nextSegment_length (d : Disp) (hwf : d.cur ≤ d.bound) :
+    (nextSegment d).1.length + d.cur ≤ d.toks.length + 4 := by
+  obtain ⟨sf, _, sl⟩ := nextSegment_spec d
+  have := sf.wf hwf
+  unfold Disp.bound at this
+  omega
+
+/-- **`lb_policy`: the model never runs out of fuel** -/
+theorem parseLbPolicy_fuel (dur : Bytes → Option Int) (toks : List Tok) : parseLbPolicy dur toks ≠ .fuel := by
+  unfold parseLbPolicy
+  apply parseSel_fuel
+  cases toks with
+  | nil => decide
+  | cons t rest =>
+    have hd : (Disp.mk (t :: rest) 0 0).next.2 = ⟨t :: rest, 1, 0⟩ := by simp [Disp.next]
+    rw [hd]
+    have := nextSegment_length ⟨t :: rest, 1, 0⟩ (by simp [Disp.bound])
+    simp at this ⊢
+    omega
+
+theorem rpStep_spec (dur : Bytes → Option Int) (addr : Bytes → Option (List Bytes)) (d : Disp) (st : RpCfg)
+    (hwf : d.cur ≤ d.bound) :
+    rpStep dur addr d st ≠ .fuel ∧ ∀ d' st', rpStep dur addr d st = .ok (d', st') → Fwd d d' := by
+  obtain ⟨af, _⟩ := nextArg_fwd d
+  obtain ⟨a1, _⟩ := nextArg_spec d
+  obtain ⟨rf, _⟩ := remainingArgs_fwd (d.toks.length + 2) d
+  -- the single-argument options
+  have hone : ∀ (r : Lr (Disp × RpCfg)), (r = .err ∨ ∃ st', r = .ok (d.nextArg.2, st')) →
+      r ≠ .fuel ∧ ∀ d' st', r = .ok (d', st') → Fwd d d' := by
+    intro r hr
+    rcases hr with h | ⟨st', h⟩
+    · subst h; simp
+    · subst h
+      refine ⟨by simp, ?_⟩
+      intro d' st'' h
+      simp at h
+      rw [← h.1]; exact af
+  have hatoi : ∀ (f : Int → RpCfg),
+      (if d.nextArg.1 = true then
+        match C16.atoi d.nextArg.2.val with
+        | some v => (Lr.ok (d.nextArg.2, f v) : Lr (Disp × RpCfg))
+        | none => .err
+      else .err) = .err ∨ ∃ st', (if d.nextArg.1 = true then
+        match C16.atoi d.nextArg.2.val with
+        | some v => (Lr.ok (d.nextArg.2, f v) : Lr (Disp × RpCfg))
+        | none => .err
+      else .err) = .ok (d.nextArg.2, st') := by
+    intro f
+    by_cases ha : d.nextArg.1 = true
+    · cases hv : C16.atoi d.nextArg.2.val with
+      | none => left; simp [ha]
+      | some v => right; exact ⟨f v, by simp [ha]⟩
+    · left; simp [ha]
+  have hdur : ∀ (f : Int → RpCfg),
+      (if d.nextArg.1 = true then
+        match dur d.nextArg.2.val with
+        | some v => (Lr.ok (d.nextArg.2, f v) : Lr (Disp × RpCfg))
+        | none => .err
+      else .err) = .err ∨ ∃ st', (if d.nextArg.1 = true then
+        match dur d.nextArg.2.val with
+        | some v => (Lr.ok (d.nextArg.2, f v) : Lr (Disp × RpCfg))
+        | none => .err
+      else .err) = .ok (d.nextArg.2, st') := by
+    intro f
+    by_cases ha : d.nextArg.1 = true
+    · cases hv : dur d.nextArg.2.val with
+      | none => left; simp [ha]
+      | some v => right; exact ⟨f v, by simp [ha]⟩
+    · left; simp [ha]
+  unfold rpStep
+  by_cases h1 : d.val = str "to"
+  · rw [if_pos h1]
+    split
+    · simp
+    · split
+      · refine ⟨by simp, ?_⟩
+        intro d' st' h
+        simp at h
+        rw [← h.1]; exact rf
+      · simp
+  rw [if_neg h1]
+  by_cases h2 : d.val = str "lb_policy"
+  · rw [if_pos h2]
+    split
+    · rename_i ha
+      obtain ⟨g1, g2⟩ := a1 ha
+      split
+      · simp
+      · obtain ⟨sf, _, _⟩ := nextSegment_spec d.nextArg.2
+        have hlen := nextSegment_length d.nextArg.2 (by rw [fwd_bound af]; exact af.wf hwf)
+        have hc : d.nextArg.2.cur = d.cur + 1 := by rw [g1]
+        have ht : d.nextArg.2.toks = d.toks := af.toks
+        have hne := parseSel_fuel dur (2 * d.toks.length + 4) (nextSegment d.nextArg.2).1 (by rw [ht] at hlen; omega)
+        cases hr : parseSel dur (2 * d.toks.length + 4) (nextSegment d.nextArg.2).1 with
+        | ok p =>
+          refine ⟨by simp, ?_⟩
+          intro d' st' h
+          simp at h
+          rw [← h.1]; exact af.trans sf
+        | err => simp
+        | fuel => exact absurd hr hne
+    · simp
+  rw [if_neg h2]
+  by_cases h3 : d.val = str "lb_retries"
+  · rw [if_pos h3]; exact hone _ (hatoi _)
+  rw [if_neg h3]
+  by_cases h4 : d.val = str "lb_try_duration"
+  · rw [if_pos h4]; exact hone _ (hdur _)
+  rw [if_neg h4]
+  by_cases h5 : d.val = str "lb_try_interval"
+  · rw [if_pos h5]; exact hone _ (hdur _)
+  rw [if_neg h5]
+  by_cases h6 : d.val = str "max_fails"
+  · rw [if_pos h6]; exact hone _ (hatoi _)
+  rw [if_neg h6]
+  by_cases h7 : d.val = str "fail_duration"
+  · rw [if_pos h7]; exact hone _ (hdur _)
+  rw [if_neg h7]
+  by_cases h8 : d.val = str "unhealthy_request_count"
+  · rw [if_pos h8]; exact hone _ (hatoi _)
+  rw [if_neg h8]
+  exact hone _ (Or.inl rfl)
+
+theorem rpLoop_fuel (dur : Bytes → Option Int) (addr : Bytes → Option (List Bytes)) : ∀ (n : Nat) (d : Disp) (st : RpCfg),
+    d.cur ≤ d.bound → d.bound + 1 - d.cur ≤ n → rpLoop dur addr n d st ≠ .fuel
+  | 0, d, st, hwf, hn => by omega
+  | n + 1, d, st, hwf, hn => by
+    obtain ⟨bf, bt, _, _⟩ := nextBlock_spec d 0
+    unfold rpLoop
+    by_cases hb : (d.nextBlock 0).1 = true
+    · have hlt := bt hb
+      have hwf1 : (d.nextBlock 0).2.cur ≤ (d.nextBlock 0).2.bound := by rw [fwd_bound bf]; exact bf.wf hwf
+      obtain ⟨s1, s2⟩ := rpStep_spec dur addr (d.nextBlock 0).2 st hwf1
+      simp only [hb, if_true]
+      cases hr : rpStep dur addr (d.nextBlock 0).2 st with
+      | ok v =>
+        obtain ⟨d', st'⟩ := v
+        have hf := bf.trans (s2 d' st' hr)
+        simp only
+        apply rpLoop_fuel dur addr n d' st'
+        · rw [fwd_bound hf]; exact hf.wf hwf
+        · rw [fwd_bound hf]; have := (s2 d' st' hr).mono; omega
+      | err => simp
+      | fuel => exact absurd hr s1
+    · simp [hb]
+
+/-- **the `reverse_proxy` directive: the model never runs out of fuel** -/
+theorem parseReverseProxy_fuel (dur : Bytes → Option Int) (addr : Bytes → Option (List Bytes)) (toks : List Tok) :
+    parseReverseProxy dur addr toks ≠ .fuel := by
+  obtain ⟨nf, _⟩ := next_fwd (Disp.mk toks 0 0)
+  obtain ⟨rf, _⟩ := remainingArgs_fwd (toks.length + 2) (Disp.mk toks 0 0).next.2
+  have hf := nf.trans rf
+  unfold parseReverseProxy
+  split
+  · apply rpLoop_fuel
+    · rw [fwd_bound hf]; exact hf.wf (by simp [Disp.bound])
+    · rw [fwd_bound hf]; simp [Disp.bound]; omega
+  · simp
+
 end CaddyModel.C08
